@@ -8,6 +8,7 @@
 #include "DensityFunction.hpp"
 #include "TravelDirections.hpp"
 #include "../C02/exact_marcher.hpp"
+#include "../C02/hang_guard.hpp"
 #include "verif_common.hpp"
 
 #include <algorithm>
@@ -23,29 +24,25 @@ using namespace verif;
 typedef long double LD;
 using xm::i64;
 
-// cmac_error ends in abort(): a call that aborts is an observation
-static thread_local jmp_buf *t_abort_jmp = nullptr;
+// cmac_error ends in abort(): a call that aborts (or never returns, see
+// ../C02/hang_guard.hpp) is an observation
 extern "C" __attribute__((noreturn)) void abort(void) noexcept {
-  if (t_abort_jmp) {
-    jmp_buf *j = t_abort_jmp;
-    t_abort_jmp = nullptr;
-    longjmp(*j, 1);
-  }
+  hg::on_abort();
   signal(SIGABRT, SIG_DFL);
   raise(SIGABRT);
   _exit(134);
 }
-// run `stmt`; `aborted` tells whether it ended in abort()
+static thread_local int t_guard_rc = 0; // 0 ok, 1 abort(), 2 did not return in time
+// run `stmt`; `aborted` tells whether it ended in abort() or was cut off by the hang guard
 #define GUARDED(aborted, stmt)                                                                     \
   {                                                                                                \
-    jmp_buf jb_;                                                                                   \
-    aborted = false;                                                                               \
-    if (setjmp(jb_)) {                                                                             \
-      aborted = true;                                                                              \
-    } else {                                                                                       \
-      t_abort_jmp = &jb_;                                                                          \
+    sigjmp_buf jb_;                                                                                \
+    t_guard_rc = sigsetjmp(jb_, 0);                                                                \
+    aborted = (t_guard_rc != 0);                                                                   \
+    if (t_guard_rc == 0) {                                                                         \
+      hg::enter(&jb_);                                                                             \
       stmt;                                                                                        \
-      t_abort_jmp = nullptr;                                                                       \
+      hg::leave();                                                                                 \
     }                                                                                              \
   }
 
